@@ -272,6 +272,24 @@ pub fn make_function(name: &str, uf: &UF, log: &Log) -> Function<DefaultNumericT
     })
 }
 
+/// Like `build_hashmap`, but the user functions do not log (for long concurrent runs).
+pub fn build_hashmap_nolog(c: &Ctx) -> HCtx {
+    let mut h = HCtx::new();
+    for (k, v) in &c.vars {
+        h.set_value(k.clone(), from_rv(v)).expect("fresh variable");
+    }
+    for (k, f) in &c.funcs {
+        let uf = f.clone();
+        let func = Function::new(move |arg: &Val| match uf.apply(&to_rv(arg)) {
+            Ok(v) => Ok(from_rv(&v)),
+            Err(e) => Err(rv_err_to_real(e)),
+        });
+        h.set_function(k.clone(), func).expect("set_function");
+    }
+    h.set_builtin_functions_disabled(c.builtins_disabled).expect("flag");
+    h
+}
+
 /// Build the HashMapContext described by `c` through the public API.
 pub fn build_hashmap(c: &Ctx, log: &Log) -> HCtx {
     let mut h = HCtx::new();
